@@ -75,6 +75,10 @@ var Fragments = []Fragment{
 	// a must that only holds while a defaulted leaf is set explicitly to its non-default value
 	{Name: "defmode-off-dep2", Leaves: Conf{"/cons/defmode": "off", "/cons/defdep2": "x"}},
 	{Name: "dep2-only", Class: "must", Leaves: Conf{"/cons/defdep2": "x"}},
+	// a leaf with a default whose own must fails on the default: valid only while set explicitly (or with en)
+	{Name: "sd-off", Leaves: Conf{"/cons/sd/mode": "off", "/cons/sd/other": "x"}},
+	{Name: "sd-other-only", Class: "must", Leaves: Conf{"/cons/sd/other": "x"}},
+	{Name: "sd-en", Leaves: Conf{"/cons/sd/en": "true", "/cons/sd/other": "y"}},
 }
 
 func FragmentIndex(name string) int {
